@@ -7,6 +7,7 @@ import itertools
 from ..absval import Undecided, eval_function, linform, Lin, module_constants
 from ..core import (AnalysisError, call_name, dotted, is_const, kwarg, local_defs, norm, origin,
                     parent_map, walk_local, arg)
+from ..pattern import pmatch, pfind
 from ..facts import (default_of, guards_of, list_literal_strs, mentions, recv_calls, returns_of,
                      enclosing_loops)
 
@@ -110,8 +111,7 @@ def changed_bonds(rep):
     skips = [n for n in walk_local(lp) if isinstance(n, (ast.Continue, ast.Break, ast.Return))]
     for s in skips:
         gs = guards_of(pm, s, lp)
-        ok = (len(gs) == 1 and gs[0][1] and isinstance(gs[0][0], ast.UnaryOp) and isinstance(gs[0][0].op, ast.Not)
-              and isinstance(gs[0][0].operand, ast.Call) and call_name(gs[0][0].operand) == "_should_include_edge")
+        ok = (len(gs) == 1 and not gs[0][1] and isinstance(gs[0][0], ast.Call) and call_name(gs[0][0]) == "_should_include_edge")
         rep.ob("O2.2", "LOOP", fi, ok, f"{type(s).__name__.lower()} under {[norm(t) for t, _ in gs]}",
                "the only way an ITS edge is skipped is the inclusion predicate", node=s)
     # predicate argument
@@ -241,9 +241,9 @@ def hh(rep):
     adds = recv_calls(lp, P[1], "add_edge")
     rep.need("LOOP", len(adds), 1, "rc.add_edge in _add_hh_bonds")
     for c in adds:
-        gs = guards_of(pm, c, lp)
+        gs = guards_of(pm, c, lp, early=True)
         texts = [(norm(t).replace(" ", ""), s) for t, s in gs]
-        allowed = {(f"_is_hh_pair({P[0]},{u},{v})", True), (f"not{P[1]}.has_edge({u},{v})", True)}
+        allowed = {(f"_is_hh_pair({P[0]},{u},{v})", True), (f"not{P[1]}.has_edge({u},{v})", True), (f"{P[1]}.has_edge({u},{v})", False)}
         ok = set(texts) <= allowed and (f"_is_hh_pair({P[0]},{u},{v})", True) in texts
         rep.ob("O2.4", "LOOP", fi, ok, f"add_edge under {[t for t, _ in texts]}",
                "an H-H bond is added whenever it is not yet in the centre", node=c)
@@ -261,6 +261,37 @@ def hh(rep):
     rep.ob("O2.4", "CMP", hp, ok, rets[0].value if rets else "return", "an H-H pair is a bond whose two end atoms are both 'H'")
 
 
+def _worklist_ball(rep, fi, w, acc, P):
+    """work-list form of the radius-k ball: every atom is marked when first discovered, so the list must be processed in order of
+    distance (FIFO); with a stack an atom can first be reached the long way round, at the depth limit, and is then never expanded"""
+    pm = parent_map(fi.node)
+    W = norm(w.test) if isinstance(w.test, ast.Name) else None
+    pops = [c for c in walk_local(w) if W and isinstance(c, ast.Call) and isinstance(c.func, ast.Attribute) and norm(c.func.value) == W and c.func.attr in ("pop", "popleft")]
+    pushes = [c for c in walk_local(w) if W and isinstance(c, ast.Call) and isinstance(c.func, ast.Attribute) and norm(c.func.value) == W and c.func.attr in ("append", "appendleft", "extend", "insert")]
+    if W is None or len(pops) != 1 or len(pushes) != 1:
+        rep.ob("O2.5", "MONO", fi, None, w.test, "work-list expansion not recognised", node=w)
+        return
+    pop = pops[0]
+    fifo = pop.func.attr == "popleft" or (pop.func.attr == "pop" and len(pop.args) == 1 and is_const(pop.args[0], 0))
+    marks = [c for c in walk_local(w) if isinstance(c, ast.Call) and isinstance(c.func, ast.Attribute) and norm(c.func.value) == acc and c.func.attr == "add"]
+    on_discovery = bool(marks) and any(pmatch(f"$x not in {acc}", t) is not None for t, s_ in guards_of(pm, marks[0], w) if s_)
+    rep.ob("O2.5", "MONO", fi, fifo if on_discovery else None, pop,
+           "atoms are marked when first discovered, so the work list must be processed in order of distance (FIFO): with a stack a ring atom first reached "
+           "the long way round, at the depth limit, is never expanded from its true distance and context(k) loses atoms within radius k",
+           {"fifo": fifo, "marks_on_discovery": on_discovery}, node=pop)
+    # depth bookkeeping: children are queued at depth + 1 and expansion stops at n_knn
+    unp = [d_ for nm, ds in local_defs(fi.node).items() for d_ in ds if d_.value is pop and d_.index == (1,)]
+    depth = None
+    for nm, ds in local_defs(fi.node).items():
+        if any(d_.value is pop and d_.index == (1,) for d_ in ds):
+            depth = nm
+    ok_d = depth is not None and f"{depth} + 1" in norm(pushes[0]) and any(
+        isinstance(n, ast.If) and (pmatch(f"{depth} >= {P[2]}", n.test) is not None) and any(isinstance(x, (ast.Continue, ast.Break)) for x in n.body) for n in walk_local(w))
+    rep.ob("O2.5", "MONO", fi, ok_d if depth else None, pushes[0], "children are queued one level deeper and atoms at depth n_knn are not expanded", node=pushes[0])
+    nb = [l for l in walk_local(w) if isinstance(l, ast.For) and isinstance(l.iter, ast.Call) and call_name(l.iter) == "neighbors"]
+    rep.ob("O2.5", "MONO", fi, len(nb) == 1 and dotted(nb[0].iter.func.value) == P[0], nb[0].iter if nb else "neighbors", "expansion follows the bonds of the given graph")
+
+
 def knn(rep):
     fi = rep.f(RAD, "RadiusExpand.find_nearest_neighbors")
     P = fi.params  # G, center_nodes, n_knn
@@ -276,6 +307,10 @@ def knn(rep):
     rep.ob("O2.5", "MONO", fi, ok_init and len(ds) == 1, init[0].stmt if init else acc,
            "the context starts as the centre nodes and is never re-bound (it can only grow)",
            {"definitions": [norm(d.stmt)[:80] for d in ds]})
+    wl = [n for n in fi.node.body if isinstance(n, ast.While)]
+    if wl:
+        _worklist_ball(rep, fi, wl[0], acc, P)
+        return
     loops = [n for n in walk_local(fi.node) if isinstance(n, ast.For)]
     rep.need("MONO", len(loops), 1, "round loop in find_nearest_neighbors")
     lp = loops[0]
